@@ -205,8 +205,29 @@ def gen_mixed(rng, k):
     return {"src": src, "annotate": rng.random() < 0.7, "cat": "mixed", "tags": [], "meta": {}}
 
 
+def gen_declared_union(rng, k):
+    """Unions WRITTEN as types (parameters, results, definitions), members plain, partly nullable or all nullable,
+    two to four members: only determinism is judged (no model prediction of the rendering)."""
+    base = ["Int", "Str", "Float", "Bool", "MyA", "MyB"]
+    src = "class MyA\nclass MyB\n"
+    for j in range(rng.randint(2, 4)):
+        ms = rng.sample(base, rng.randint(2, 4))
+        mode = rng.choice(["plain", "some", "all", "all"])
+        mem = [m + ("?" if mode == "all" or (mode == "some" and rng.random() < 0.5) else "") for m in ms]
+        u = "{" + ", ".join(mem) + "}"
+        nullable = any(m.endswith("?") for m in mem)
+        init = "None" if nullable else {"Int": "1", "Str": "\"s\"", "Float": "2.5", "Bool": "True", "MyA": "MyA()", "MyB": "MyB()"}[ms[0]]
+        form = rng.choice(["def", "fun", "both"])
+        if form in ("def", "both"):
+            src += f"def d{j}: {u} := {init}\n"
+        if form in ("fun", "both"):
+            src += f"def p{j}(flag: Bool, first: {u}) -> {u} => first\n"
+    return {"src": src, "annotate": rng.random() < 0.85, "cat": "declunion", "tags": [], "meta": {}}
+
+
 GENERATORS = [("classbody", gen_classbody, 5), ("union", gen_union, 3), ("dupclass", gen_dupclass, 1.2),
-              ("dupfun", gen_dupfun, 1.2), ("parents", gen_parents, 1.5), ("mixed", gen_mixed, 1)]
+              ("dupfun", gen_dupfun, 1.2), ("parents", gen_parents, 1.5), ("mixed", gen_mixed, 1),
+              ("declunion", gen_declared_union, 2)]
 
 WITNESSES = [  # the hand-written witnesses of the findings and of DESIGN.md, always run
     {"src": "class A\n    def m1(self) -> Int => 1\n    def f1: Int := 1\n    def f2: Int := 2\n"
